@@ -16,9 +16,6 @@ import (
 	"strings"
 	"time"
 
-	"golang.org/x/text/language"
-
-
 	"verif/harness/engine"
 )
 
